@@ -1163,18 +1163,6 @@ static int depth;
 
 static void deep_copy_svalue (svalue_t *, svalue_t *);
 
-static array_t *
-deep_copy_array (array_t * arg)
-{
-  array_t *vec;
-  int i;
-
-  vec = allocate_empty_array (arg->size);
-  for (i = 0; i < arg->size; i++)
-    deep_copy_svalue (&arg->item[i], &vec->item[i]);
-  return vec;
-}
-
 static int
 doCopy (mapping_t * map, mapping_node_t * elt, mapping_t * dest)
 {
@@ -1192,16 +1180,6 @@ doCopy (mapping_t * map, mapping_node_t * elt, mapping_t * dest)
   return 0;
 }
 
-static mapping_t *
-deep_copy_mapping (mapping_t * arg)
-{
-  mapping_t *map;
-
-  map = allocate_mapping (0);	/* this should be fixed.  -Beek */
-  mapTraverse (arg, (map_func_t)doCopy, map);
-  return map;
-}
-
 static void
 deep_copy_svalue (svalue_t * from, svalue_t * to)
 {
@@ -1217,8 +1195,15 @@ deep_copy_svalue (svalue_t * from, svalue_t * to)
             ("Mappings, arrays and/or classes nested too deep (%d) for copy()\n",
              MAX_SAVE_SVALUE_DEPTH);
         }
-      *to = *from;
-      to->u.arr = deep_copy_array (from->u.arr);
+      {
+        array_t *vec = allocate_empty_array (from->u.arr->size);
+        int i;
+
+        *to = *from;
+        to->u.arr = vec;
+        for (i = 0; i < from->u.arr->size; i++)
+          deep_copy_svalue (&from->u.arr->item[i], &vec->item[i]);
+      }
       depth--;
       break;
     case T_MAPPING:
@@ -1231,7 +1216,8 @@ deep_copy_svalue (svalue_t * from, svalue_t * to)
              MAX_SAVE_SVALUE_DEPTH);
         }
       *to = *from;
-      to->u.map = deep_copy_mapping (from->u.map);
+      to->u.map = allocate_mapping (0);	/* this should be fixed.  -Beek */
+      mapTraverse (from->u.map, (map_func_t)doCopy, to->u.map);
       depth--;
       break;
     default:
@@ -1242,12 +1228,16 @@ deep_copy_svalue (svalue_t * from, svalue_t * to)
 void
 f_copy (void)
 {
-  svalue_t ret;
-
   depth = 0;
-  deep_copy_svalue (sp, &ret);
-  free_svalue (sp, "f_copy");
-  *sp = ret;
+  /* The copy is built in a stack slot, every new array / mapping is linked into it before its
+   * contents are copied: when the nesting limit raises an error, unwinding the stack releases
+   * the partial copy instead of leaking it. */
+  STACK_CHECK (1);
+  *++sp = const0;
+  deep_copy_svalue (sp - 1, sp);
+  free_svalue (sp - 1, "f_copy");
+  *(sp - 1) = *sp;
+  sp--;
 }
 #endif
 
